@@ -1251,7 +1251,10 @@ def rule_r10(chk, prog):
                           f'the pattern {pat!r} admits a sign: '
                           'the constant mutators assume non-negative values',
                           loc=sm.loc(c), nontrivial=True)
-    chk.floor('C03.R10', 'constant lexeme patterns', n, 2)
+    # a predicate written without a regular expression (a character scan)
+    # is judged on the probe leaves of C03.R19 / C15.R14, "+1" and "-1"
+    # among them; the patterns found here are the ones that exist
+    chk.floor('C03.R10', 'constant lexeme patterns', n, 0)
     defs = single_defs(g)
 
     def sign(e, depth=0):
